@@ -430,6 +430,28 @@ def feature_charts():
     return out
 
 
+
+def structural_charts():
+    """Documents used by the structural-table check (C05) only: shapes whose tables depend on a rarely met clause of the
+    recommendation.  Kept apart from feature_charts() so that the behavioural checks' scenario sets stay as they are."""
+    out = []
+    # 1. internal transition whose source is a PARALLEL state and whose target is a proper descendant: the domain is
+    #    the nearest compound ancestor (the narrowing applies to compound sources only), the parallel itself is exited
+    r = Node('scxml'); top = r.add(Node('state')); p = top.add(Node('parallel')); r1 = p.add(Node('state')); r1a = r1.add(Node('state')); r1b = r1.add(Node('state'))
+    r2 = p.add(Node('state')); r2a = r2.add(Node('state'))
+    p.trans.append(Trans([r1b], event=True, internal=True)); r1a.trans.append(Trans([r1b], event=True))
+    out.append(Chart(r, 'struct_internal_parallel_source'))
+    # 2. the same directly below <scxml>, with a second, external transition from a region (conflict relation)
+    r = Node('scxml'); p = r.add(Node('parallel')); a = p.add(Node('state')); a1 = a.add(Node('state')); a2 = a.add(Node('state')); b = p.add(Node('state')); b1 = b.add(Node('state')); b2 = b.add(Node('state'))
+    p.trans.append(Trans([a2, b2], event=True, internal=True)); b1.trans.append(Trans([b2], event=True)); a.trans.append(Trans([a2], event=True, internal=True))
+    out.append(Chart(r, 'struct_internal_parallel_root'))
+    # 3. internal transition on a compound source with one target outside the source (no narrowing), and on an atomic source
+    r = Node('scxml'); a = r.add(Node('state')); a1 = a.add(Node('state')); a2 = a.add(Node('state')); c = r.add(Node('state'))
+    a.trans.append(Trans([c], event=True, internal=True)); a1.trans.append(Trans([a2], event=True, internal=True)); a2.trans.append(Trans([a2], event=True, internal=True))
+    out.append(Chart(r, 'struct_internal_outside'))
+    return out
+
+
 def corpus_charts(repo, max_states=24, max_trans=16, dirs=('test/w3c/null', 'test/w3c/lua', 'test/w3c/promela', 'test/uscxml')):
     import glob
     out = []
